@@ -21,8 +21,17 @@ from .. import core, schema as S, sbeppc, mutate as M
 MODULE = 'Sbepp.Properties.C08'
 THEOREMS = [
     'Sbepp.Properties.C08.parseNum_spec',
+    'Sbepp.Properties.C08.rejects_every_broken_schema',
+    'Sbepp.Properties.C08.check_ok_rules_partial',
+    "Sbepp.Properties.C08.check_ok_rules_partial'",
+    'Sbepp.Properties.C08.C08_full_false',
+    "Sbepp.Properties.C08.C08_full_false'",
     'Sbepp.Properties.C08.accepted_no_overlap',
     'Sbepp.Properties.C08.accepted_members_in_block',
+    'Sbepp.Properties.C08.cycle_detection_complete',
+    'Sbepp.Properties.C08.cyclic_schema_rejected',
+    'Sbepp.Properties.C08.check_error_sound_cyclic',
+    'Sbepp.Properties.C08.keyword_lists_agree',
 ]
 
 ANSI = re.compile(r'\x1b\[[0-9;]*m')
